@@ -5,6 +5,7 @@ import (
 	"context"
 	"errors"
 	"fmt"
+	"golang.org/x/sys/unix"
 	"io"
 	"net/url"
 	"os"
@@ -616,6 +617,52 @@ func (w *world) read(tag string, rd Read) {
 	w.stats["reads"]++
 }
 
+// wread: one read while no file of this process can be written at or beyond a limit inside the
+// cache file (start of chunk op.Chunk plus op.Arg bytes). The copy-on-read write of that chunk
+// fails or is cut short; the read has to fail or return the blob's bytes like any other, and so
+// have the reads that follow. The limit is lifted before anything else happens.
+func (w *world) wread(op Op) {
+	if !w.alive || w.nch == 0 {
+		return
+	}
+	k := op.Chunk % w.nch
+	if k < 0 {
+		k = -k
+	}
+	d := op.Arg
+	if d < 0 || uint64(d) >= w.spans[k].Len {
+		d = 0
+	}
+	limit := w.spans[k].Start + uint64(d)
+	var old syscall.Rlimit
+	if err := syscall.Getrlimit(unix.RLIMIT_FSIZE, &old); err != nil {
+		panic(err)
+	}
+	lim := old
+	lim.Cur = limit
+	if err := syscall.Setrlimit(unix.RLIMIT_FSIZE, &lim); err != nil {
+		panic(err)
+	}
+	gets, _ := w.store.counts()
+	rd := sanitize(*op.R)
+	before := w.store.failedSnapshot()
+	mark := w.store.failMark()
+	res := w.doRead(rd)
+	if err := syscall.Setrlimit(unix.RLIMIT_FSIZE, &old); err != nil {
+		panic(err)
+	}
+	w.class("wread")
+	if g, _ := w.store.counts(); g > gets {
+		w.class("wread:fetched-under-limit")
+	}
+	if (res.err != nil && res.err != io.EOF) || res.errno != 0 {
+		w.class("wread:error")
+	}
+	w.tracef("wread limit=%d (chunk %d + %d)", limit, k, d)
+	w.judge("wread", rd, res, before, w.store.failedSnapshot(), w.store.failsSince(mark))
+	w.stats["reads"]++
+}
+
 func sanitize(rd Read) Read {
 	if rd.Off < 0 {
 		rd.Off = 0
@@ -1121,6 +1168,10 @@ func (w *world) apply(op Op) {
 	case "read":
 		if op.R != nil {
 			w.read("read", sanitize(*op.R))
+		}
+	case "wread":
+		if op.R != nil {
+			w.wread(op)
 		}
 	case "conc":
 		w.conc(op)
